@@ -55,7 +55,9 @@ impl<'ast> Visit<'ast> for V {
         }
         if let syn::Expr::MethodCall(m) = e {
             let n = m.method.to_string();
-            if ["par_iter", "par_iter_mut", "into_par_iter", "par_bridge", "par_extend", "par_sort", "par_chunks"].contains(&n.as_str()) {
+            // rayon's naming convention: every entry point into a parallel iterator or a parallel
+            // slice operation is `par_*` or `into_par_*`
+            if n.starts_with("par_") || n.starts_with("into_par_") {
                 self.rayon_direct.push(format!("{}:{}", self.file, n));
             }
         }
@@ -101,6 +103,11 @@ impl<'ast> Visit<'ast> for V {
         syn::visit::visit_item_fn(self, f);
     }
     fn visit_path(&mut self, p: &'ast syn::Path) {
+        // `rayon::join`, `rayon::scope`, `rayon::current_num_threads`, … named in an expression or
+        // a type (`use` declarations are not paths)
+        if p.segments.first().map(|s| s.ident == "rayon").unwrap_or(false) {
+            self.rayon_direct.push(format!("{}:{}", self.file, p.to_token_stream().to_string().replace(' ', "")));
+        }
         for seg in &p.segments {
             let s = seg.ident.to_string();
             if ["Cell", "RefCell", "UnsafeCell", "Mutex", "RwLock", "OnceCell", "OnceLock", "AtomicUsize", "AtomicBool", "AtomicU32", "AtomicU64", "AtomicPtr", "AtomicIsize", "AtomicI32", "AtomicI64"].contains(&s.as_str()) {
